@@ -11,6 +11,7 @@ import (
 	"os"
 	"strings"
 
+	"verifharness/apkb"
 	"verifharness/c04"
 	"verifharness/c06"
 	"verifharness/c07"
@@ -30,6 +31,7 @@ import (
 	"verifharness/cms"
 	"verifharness/e2e"
 	"verifharness/hx"
+	"verifharness/jar"
 	"verifharness/pe"
 	"verifharness/ps"
 )
@@ -44,6 +46,8 @@ var handlers = map[string]func([]string) string{
 	"E2E": e2e.Handle,
 	"CMS": cms.Handle,
 	"MSI": c18.MsiHandle,
+	"JAR": jar.Handle,
+	"APK": apkb.Handle,
 	"CAB": cab.Handle,
 	"PS":  ps.Handle,
 	"C09": c09.Handle,
@@ -109,7 +113,7 @@ func forProp(prop string, g func(*bufio.Writer, uint64, string, string)) genFunc
 
 func init() {
 	// C05 (digests are what the specifications prescribe): PE image hash ops, PE checksum ops, APK merkle ops, ECDSA width ops
-	gens["C05"] = []genFunc{forProp("C05", pe.Gen), filtered(c09.Gen, "cksum", "fixpe", "fixpehex", "merkle"), filtered(c19.Gen, "ecdsa", "ecdsasign"), forProp("C05", c18.MsiGen)}
+	gens["C05"] = []genFunc{forProp("C05", pe.Gen), filtered(c09.Gen, "cksum", "fixpe", "fixpehex", "merkle"), filtered(c19.Gen, "ecdsa", "ecdsasign"), forProp("C05", c18.MsiGen), forProp("C05", jar.Gen), forProp("C05", apkb.Gen)}
 	gens["C18"] = append(gens["C18"], forProp("C18", c18.MsiGen))
 	for _, p := range []string{"C01", "C02", "C03", "C08", "C11"} {
 		gens[p] = append(gens[p], forProp(p, pe.Gen))
@@ -122,6 +126,12 @@ func init() {
 		}
 		if p == "C11" {
 			gens[p] = append(gens[p], c11.Gen)
+		}
+		if p == "C01" || p == "C02" || p == "C03" || p == "C08" {
+			gens[p] = append(gens[p], forProp(p, jar.Gen))
+		}
+		if p == "C01" || p == "C08" {
+			gens[p] = append(gens[p], forProp(p, apkb.Gen))
 		}
 		if p == "C01" || p == "C02" || p == "C03" || p == "C08" {
 			gens[p] = append(gens[p], forProp(p, e2e.Gen))
